@@ -5,6 +5,7 @@ import (
 	"fmt"
 	"runtime/debug"
 	"sync"
+	"sync/atomic"
 	"testing"
 	"time"
 
@@ -21,7 +22,7 @@ import (
 
 func TestMain(m *testing.M) {
 	time.Local = time.UTC
-	ev.Describe("batches of 4..16 calls (all operations) on one client against the loopback farm, each call with a drawn delivery path (broadcast, connected UDP, TCP) and network behaviour: silence, genuine reply after a drawn fraction 0..0.8 of the timeout, flood of irrelevant datagrams that lasts 4x the timeout (with or without a genuine reply in the middle), TCP accept-and-stall, TCP reset, refused port; optionally a fixed bind port, and a closing group of 2..4 concurrent calls that have to queue for it while their controllers answer a drawn fraction of the timeout after being asked. Oracle per call: it returns (watchdog: timeout + 5 s = hang); elapsed <= 1.5 x timeout + 200 ms (k x timeout for the k-th queued call); an error exactly when no acceptable reply came; a reply sent before 0.8 x timeout after the request was seen is accepted. Per batch (GC disabled): socket descriptors in /proc/self/fd and goroutines with a uhppote-core frame are, after a settling poll of <= 2 s, what they were before. Non-trivial = call that had to wait for its deadline or met a fault; distinct = distinct batch.",
+	ev.Describe("batches of 4..16 calls (all operations) on one client against the loopback farm, each call with a drawn delivery path (broadcast, connected UDP, TCP) and network behaviour: silence, genuine reply after a drawn fraction 0..0.8 of the timeout, flood of irrelevant datagrams that lasts 4x the timeout (with or without a genuine reply in the middle), TCP accept-and-stall, TCP reset, TCP clean close without a reply (EOF), part of a reply then close, a reply that trickles in a few bytes every 0.7 x timeout, refused port, a dense stream of datagrams that starts just before the deadline and ends just after it (discovery: well-formed replies); optionally a fixed bind port, and a closing group of 2..4 concurrent calls that have to queue for it while their controllers answer a drawn fraction of the timeout after being asked. Oracle per call: it returns (watchdog: timeout + 5 s = hang); elapsed <= 1.5 x timeout + 200 ms (k x timeout for the k-th queued call); an error exactly when no acceptable reply came; a reply sent before 0.8 x timeout after the request was seen is accepted. Per batch (GC disabled): socket descriptors in /proc/self/fd and goroutines with a uhppote-core frame are, after a settling poll of <= 2 s, what they were before. Non-trivial = call that had to wait for its deadline or met a fault; distinct = distinct batch.",
 		"time is never a verdict on its own: a failed batch is re-run with every delay and timeout scaled x4 and again x16; only a failure that persists at every scale counts, otherwise the batch is 'timing inconclusive'",
 		"overruns smaller than the slack (0.5 x timeout + 200 ms) are invisible")
 	ev.Main(m, "C09")
@@ -103,6 +104,18 @@ func runBatch(b batch, scale int) *rp.Fail {
 	all := append(append([]callSpec{}, b.Calls...), b.Group...)
 	behaviour := map[uint32]callSpec{}
 	var mu sync.Mutex
+	// floods and streams end shortly after the call they were aimed at has returned (so that they do not spill into the
+	// next call, which may use the same fixed bind port): returned[serial] is set 2 ms after the call came back
+	returned := map[uint32]*atomic.Bool{}
+	stopFor := func(serial uint32) func() bool {
+		mu.Lock()
+		defer mu.Unlock()
+		if returned[serial] == nil {
+			returned[serial] = &atomic.Bool{}
+		}
+		f := returned[serial]
+		return f.Load
+	}
 	actionsFor := func(serial uint32, req []byte) []farm.Action {
 		mu.Lock()
 		c, ok := behaviour[serial]
@@ -114,6 +127,15 @@ func runBatch(b batch, scale int) *rp.Fail {
 		switch c.Behaviour {
 		case "reply":
 			return []farm.Action{{Delay: d, Data: reply(req)}}
+		case "stream": // replies (for discovery: well-formed get-device replies) arrive back to back from just before the
+			// deadline until just after it - the collector must stop cleanly in the middle of the stream
+			msg := reply(req)
+			if serial == 0 {
+				spec.PutLE32(msg[4:], 423187757)
+			} else {
+				msg = stray(serial, req[1])
+			}
+			return []farm.Action{{Delay: T * 90 / 100, Data: msg, RepeatFor: T * 20 / 100, Stop: stopFor(serial)}}
 		case "flood", "flood+reply":
 			var a []farm.Action
 			step := T / 40
@@ -127,7 +149,7 @@ func runBatch(b batch, scale int) *rp.Fail {
 					sent = true
 					break // the call returns; no need to keep flooding
 				}
-				a = append(a, farm.Action{Delay: step, Data: stray(serial, req[1])})
+				a = append(a, farm.Action{Delay: step, Data: stray(serial, req[1]), Stop: stopFor(serial)})
 			}
 			return a
 		}
@@ -153,6 +175,24 @@ func runBatch(b batch, scale int) *rp.Fail {
 			e.PlayTCP(r, []farm.Action{{Delay: T * time.Duration(c.Percent) / 100, Data: reply(r.Data)}})
 		case "reset":
 			e.PlayTCP(r, []farm.Action{{Delay: T * time.Duration(c.Percent) / 100, Reset: true}})
+		case "close": // reads the request, then closes the connection cleanly without a reply (the client sees EOF)
+			e.PlayTCP(r, []farm.Action{{Delay: T * time.Duration(c.Percent) / 100, Close: true}})
+		case "half": // part of a reply, then a clean close
+			part := reply(r.Data)
+			if part == nil {
+				part = stray(serial, r.Data[1])
+			}
+			e.PlayTCP(r, []farm.Action{{Data: part[:10]}, {Delay: T * time.Duration(c.Percent) / 100, Close: true}})
+		case "trickle": // the reply dribbles in, a few bytes every 0.7 x timeout, and is not complete before 3 x timeout
+			var a []farm.Action
+			full := reply(r.Data)
+			if full == nil {
+				full = stray(serial, r.Data[1])
+			}
+			for i := 0; i < 5; i++ {
+				a = append(a, farm.Action{Delay: T * 7 / 10, Data: full[8*i : 8*i+8]})
+			}
+			e.PlayTCP(r, a)
 		default: // stall: keep the connection open and say nothing until the client gives up
 			e.PlayTCP(r, nil)
 		}
@@ -237,6 +277,9 @@ func runBatch(b batch, scale int) *rp.Fail {
 				client = uAny
 			}
 			if c.Op == "GetDevices" {
+				mu.Lock()
+				behaviour[0] = c // discovery requests carry serial number 0
+				mu.Unlock()
 				func() {
 					defer func() { r.panic = recover() }()
 					_, r.err = client.GetDevices()
@@ -246,6 +289,24 @@ func runBatch(b batch, scale int) *rp.Fail {
 				r.err, r.panic = res.Err, res.Panic
 			}
 			r.elapsed = time.Since(started)
+			if c.Behaviour == "stream" || c.Behaviour == "flood" {
+				time.Sleep(2 * time.Millisecond) // the stream goes on for a moment after the call has returned, then stops
+				key := serials[i]
+				if c.Op == "GetDevices" {
+					key = 0
+				}
+				stop := stopFor(key)
+				_ = stop
+				mu.Lock()
+				returned[key].Store(true)
+				mu.Unlock()
+				time.Sleep(3 * time.Millisecond) // let what is in flight drain
+				if c.Op == "GetDevices" {
+					mu.Lock()
+					returned[0] = nil // the next discovery gets a fresh flag
+					mu.Unlock()
+				}
+			}
 			done <- r
 		}()
 		k := time.Duration(1)
@@ -376,11 +437,14 @@ func genCall(t *rapid.T, group bool) callSpec {
 	var bs []string
 	switch c.Path {
 	case 0:
-		bs = []string{"reply", "reply", "reply", "silence", "flood", "flood+reply"}
+		bs = []string{"reply", "reply", "reply", "silence", "flood", "flood+reply", "stream"}
+		if c.Op == "GetDevices" {
+			bs = []string{"reply", "silence", "flood", "stream", "stream"}
+		}
 	case 1:
 		bs = []string{"reply", "reply", "reply", "silence", "refused", "flood"}
 	default:
-		bs = []string{"reply", "reply", "reply", "stall", "reset", "refused", "blackhole"}
+		bs = []string{"reply", "reply", "reply", "stall", "reset", "refused", "blackhole", "close", "half", "trickle"}
 	}
 	if group {
 		bs = []string{"reply"}
@@ -400,7 +464,7 @@ func genBatch(t *rapid.T) batch {
 	for i := 0; i < n; i++ {
 		c := genCall(t, false)
 		// keep batches short: at most three calls that have to wait for their deadline
-		if c.Behaviour != "reply" && c.Behaviour != "flood+reply" && c.Behaviour != "refused" && c.Behaviour != "reset" {
+		if c.Behaviour != "reply" && c.Behaviour != "flood+reply" && c.Behaviour != "refused" && c.Behaviour != "reset" && c.Behaviour != "close" && c.Behaviour != "half" {
 			slow++
 			if slow > 3 {
 				c.Behaviour, c.Percent = "reply", 0
